@@ -171,7 +171,8 @@ def run_history(h):
     given, gkw = given_as('d0')
     # another template of the process has variables of its own (set through var()): nobody else's business
     other = HTML('<dtml-var a>')
-    other.var(a='OTHER-TEMPLATE-A', y='OTHER-Y', seq=[99], _u='OTHER-U')
+    _NS['h'] = _NS.get('h', 0) + 1          # (other values in every history: what a fresh template gave before still holds)
+    other.var(a='OTHER-A-%d' % _NS['h'], y='OTHER-Y-%d' % _NS['h'], seq=[99, _NS['h']], _u='OTHER-U')
     t = HTML(SOURCES[hist[0][1] - 1], given, **gkw)
     cur_defaults = 'd0'
     k = 0
